@@ -217,7 +217,7 @@ def write_csv(path, header, rnd):
     import csv
     rows = []
     rich = rnd.random() < .5
-    for i in range(rnd.randint(1, 4)):
+    for i in range(0 if rnd.random() < .08 else rnd.randint(1, 4)):      # (now and then a file that holds its header line only: an export of an empty period)
         rows.append(['01/%02d/2025' % (i + 1) if 'date' in h.lower() else ('%d.%02d' % (10 + i, i)) if any(
             k in h.lower() for k in ('amount', 'debit', 'charge', 'payment', 'balance')) else
             (rnd.choice(CELL_TEXTS) if rich else 'VAL %d %s' % (i, h[:4])) for h in header])
@@ -295,9 +295,9 @@ def run_inspect_inproc(path):
     return buf.getvalue(), rc
 
 
-def run_inspect_cli(path, cwd):
+def run_inspect_cli(path, cwd, nrows='2'):
     env = dict(os.environ, PYTHONPATH=core.SRC, PYTHONDONTWRITEBYTECODE='1', NO_COLOR='1')
-    p = subprocess.run([core.PY, '-m', 'tally', 'inspect', path, '-n', '2'], cwd=cwd, env=env, capture_output=True,
+    p = subprocess.run([core.PY, '-m', 'tally', 'inspect', path, '-n', nrows], cwd=cwd, env=env, capture_output=True,
                        text=True, stdin=subprocess.DEVNULL, timeout=120)
     return p.stdout + p.stderr, p.returncode
 
@@ -347,7 +347,7 @@ def run(rec, shard, nshards, t):
             write_csv(path, header, rnd)
             rec.case()
             if i < n_cli:
-                out, rc = run_inspect_cli(path, tmp)
+                out, rc = run_inspect_cli(path, tmp, nrows=['2', '0', '1'][i % 3])      # (how many sample rows are SHOWN does not change what is detected)
                 judge_inspect(rec, header, out, rc, 'cli')
             else:
                 out, rc = run_inspect_inproc(path)
